@@ -114,6 +114,10 @@ def main(tier, evidence):
             digests.setdefault(s, {}).setdefault(k["got"], []).append(name)
             if k.get("zeroize") != "ok":
                 rep.violate("c17:zeroize", "configuration [%s]: ML-DSA-%s key objects are not erased on drop" % (name, s), rpl)
+            if k.get("rngfail", "ok") != "ok":
+                rep.violate("c17:rngfail", "configuration [%s]: ML-DSA-%s returns a key or signature although the caller's generator reported failure (other configurations report the error)" % (name, s), rpl)
+            if k.get("zeroize_heap", "ok") != "ok":
+                rep.violate("c17:zeroize-heap", "configuration [%s]: ML-DSA-%s key bytes survive an ordinary drop(Box<key>) (%s)" % (name, s, k.get("zeroize_heap")), rpl)
             if "default-rng" in r["features"] and k.get("osrng") != "ok":
                 rep.violate("c17:osrng", "configuration [%s]: ML-DSA-%s OS-RNG wrappers misbehave" % (name, s), rpl)
             if "dudect" in r["features"]:
